@@ -173,9 +173,15 @@ def shrink(lines, pred0, budget=400):
     return cur
 
 
+BORROWED = {'C02': {('C08', 'dup-flag'), ('C08', 'first-dup'), ('C12', 'resume-dup')}}
+
+
 def judge(prop, lines):
     tr = realworld.run_scenario(lines)
-    return [v for v in monitors.run_monitors(tr, want={prop}) if v.prop == prop], tr
+    vs = [v for v in monitors.run_monitors(tr, want={prop}) if v.prop == prop]
+    if prop in BORROWED:
+        vs += [v for v in monitors.run_monitors(tr, want={q for q, _ in BORROWED[prop]}) if (v.prop, v.sig) in BORROWED[prop]]
+    return vs, tr
 
 
 def run_scenarios(prop, ctx, scenarios, res, compare_model=True, label='walk'):
@@ -191,6 +197,10 @@ def run_scenarios(prop, ctx, scenarios, res, compare_model=True, label='walk'):
         if nontrivial(tr, alpha):
             res.distinct.add(_digest([(op, project(op, obs, alpha, {})) for op, obs in tr]))
         vs = [v for v in monitors.run_monitors(tr, want={prop}) if v.prop == prop]
+        if prop in BORROWED:
+            # rules of other properties' monitors that also state this property (C02: "mandatory flag bits in the first byte" includes the DUP bit
+            # the version prescribes for a packet sent again)
+            vs += [v for v in monitors.run_monitors(tr, want={q for q, _ in BORROWED[prop]}) if (v.prop, v.sig) in BORROWED[prop]]
         seen = set()
         for v in vs:
             if v.sig in seen:
@@ -244,6 +254,85 @@ def op_histogram(scenarios):
             k = l.split()[0]
             h[k] = h.get(k, 0) + 1
     return h
+
+
+def extend_search(prop, ctx, res, limit=6):
+    """The correspondence broke but no monitor objected to any scenario as far as it went: the broken step is often only the seed of a
+    violation that shows later (an orphaned timer that fires after the acknowledgement or after the loss, an entry that blocks the next
+    connection). From each diverging prefix the REAL client is driven on -- timers left to expire, everything outstanding acknowledged,
+    the connection lost, the address rebuilt with a clean / a persistent session -- and the property's monitor judges the longer trace.
+    Real code and monitor only: no model, no verdict by comparison."""
+    import checklib
+    kf = checklib.known_findings()
+    known = [sg for e in kf.get('open', []) if prop in e.get('properties', []) for sg in e.get('signatures', {}).get(prop, [])]
+    is_known = lambda sig: any(str(sig).startswith(k) for k in known)
+    if any(not is_known(v.get('signature', '')) for v in res.violations) or not res.divergences:
+        return
+    done = 0
+    for d in res.divergences[:limit]:
+        prefix = d.get('scenario')
+        if not prefix or not prefix[0].startswith('factory'):
+            continue
+        for cont in ('drain', 'ack', 'lose', 'resume', 'fresh'):
+            try:
+                sc = longrun.Script(int(prefix[0].split()[1]))
+                for l in prefix[1:]:
+                    sc.do(l)
+                w = sc.w
+                gone = {int(l.split()[1]) for l in prefix if l.startswith('lost ')}
+                tried = {int(l.split()[1]) for l in prefix if l.startswith('connect ')}
+                live = [i for i in range(len(w.protos)) if i not in gone and i in tried]
+                f = w.factory
+                if cont == 'drain':
+                    sc.fire_all(12)
+                if cont == 'ack':
+                    for i in live:
+                        a = w.protos[i].addr
+                        for r in list(f.windowPublish.get(a, {}).values()):
+                            sc.do('recv %d %s' % (i, hx(ack(0x40 if r.qos == 1 else 0x50, r.msgId))))
+                        for k in list(f.windowPubRelease.get(a, {}).keys()):
+                            sc.do('recv %d %s' % (i, hx(ack(0x70, k))))
+                        for k in list(f.windowSubscribe.get(a, {}).keys()):
+                            sc.do('recv %d %s' % (i, hx(suback(k, [0]))))
+                        for k in list(f.windowUnsubscribe.get(a, {}).keys()):
+                            sc.do('recv %d %s' % (i, hx(ack(0xB0, k))))
+                        for k in list(f.windowPubRx.get(a, {}).keys()):
+                            sc.do('recv %d %s' % (i, hx(ack(0x62, k))))
+                    sc.fire_all(10)
+                if cont in ('lose', 'resume', 'fresh'):
+                    addrs = [str(pr.addr) for pr in w.protos]      # every address served so far, also those whose protocol is already lost
+                    for i in range(len(w.protos)):
+                        if i not in gone and i not in tried:
+                            sc.do('connect %d %s 0 311 1' % (i, s_tok('late')))      # (Env: the loss of a transport is reported after connect())
+                            live.append(i)
+                    for i in live:
+                        sc.do('lost %d lostc' % i)
+                    sc.fire_all(6)
+                    if cont != 'lose':
+                        for a in dict.fromkeys(addrs):
+                            sc.do('build %s' % a); q = len(w.protos) - 1
+                            sc.do('sethandlers %d 7' % q); sc.do('setwin %d 4' % q)
+                            sc.do('connect %d %s 0 311 %d' % (q, s_tok('again'), 1 if cont == 'fresh' else 0))
+                            sc.do('recv %d %s' % (q, hx(connack(0, 0 if cont == 'fresh' else 1))))
+                        sc.fire_all(8)
+                lines = sc.lines
+            except Exception:
+                lines = list(longrun.CURRENT[0].lines) if longrun.CURRENT else None
+            if not lines or len(lines) <= len(prefix) or not env_ok(lines):
+                continue
+            try:
+                vs, tr = judge(prop, lines)
+            except Exception:
+                continue
+            done += 1
+            vs = [v for v in vs if not is_known(v.sig)]
+            if vs:
+                v = vs[0]
+                res.violations.append(dict(signature=v.sig, what='%s (continuation `%s` of the scenario on which model and code part, step %d)' % (v.msg, cont, v.step),
+                                           scenario=lines[:v.step + 1] if v.step >= 0 else lines, original_length=len(lines)))
+                res.extra['extension_search'] = done
+                return
+    res.extra['extension_search'] = done
 
 
 def generic(prop, ctx, nq, nt, steps, rule, weights=None, extra=None, **kw):
@@ -331,6 +420,18 @@ def c04(ctx):
                 C = 'recv 0 %s' % hx(connack(0, 1)); T = 'fire 0'; L = 'lost 0 lostc'
                 for seq in ([C, T, L], [T, C, L], [L, T, C], [L, C, T], [C, C, L, T], [T, L], [C, L, 'fire 1', 'fire 2', 'fire 3'], ['recv 0 2002', T, 'recv 0 0000', L]):
                     out.append(('ord', b + seq + ['fire 1', 'fire 2', 'fire 3', 'fire 4']))
+        # one protocol object, several handshakes in a row with different keepalives: each is judged on its own (deadline = its own keepalive, or
+        # 10 s for keepalive 0; a refusal or a timeout of an earlier one leaves nothing behind)
+        for prof in ((3,) if ctx['tier'] == 'quick' else (1, 2, 3)):
+            for ver in ('311', '31'):
+                for k1 in (0, 2, 30):
+                    for k2 in (0, 2, 30):
+                        for k3 in ((0, 5) if ctx['tier'] != 'quick' or k1 != k2 else (0,)):
+                            b = ['factory %d' % prof, 'build a0', 'sethandlers 0 7']
+                            b += ['connect 0 %s %d %s 1' % (s_tok('c'), k1, ver), 'recv 0 %s' % hx(connack(5, 0))]
+                            b += ['connect 0 %s %d %s 0' % (s_tok('c'), k2, ver), 'fire 1', 'fire 0', 'recv 0 %s' % hx(connack(0, 0))]
+                            b += ['connect 0 %s %d %s 1' % (s_tok('c'), k3, ver), 'recv 0 %s' % hx(connack(0, 0)), 'fire 2', 'fire 3', 'lost 0 done', 'fire 4', 'fire 5']
+                            out.append(('again-%d-%d-%d' % (k1, k2, k3), b))
         return out
     return generic('C04', ctx, 250, 6000, 45,
                    'corpus of past witnesses; seeded state-aware walks biased to the handshake (connect in all profiles/versions/keepalives/session modes, CONNACK with '
@@ -430,6 +531,26 @@ def c08(ctx):
                             l = 'jit %d/1024' % ((k * 311) % 1024)
                             sc.append(l); w.step(l)
                     out.append(('expiries-%s-%d-%s' % (ver, it, bw), sc))
+        # setters while a large message is unacknowledged: the estimate in force when the message was accepted keeps governing its repeats
+        # (a raised bandwidth, a lowered timeout or a new window must not make the gaps of a message already in flight shrink)
+        for ver in ('311', '31'):
+            for q in (1, 2):
+                for setter in ('setbw 0 1000000 2', 'setbw 0 10000 1/2', 'settimeout 0 1', 'setwin 0 1'):
+                    L = longrun.Script(3)
+                    try:
+                        L.do('build a0'); L.do('sethandlers 0 7'); L.do('connect 0 %s 0 %s 1' % (s_tok('c'), ver)); L.do('recv 0 20020000')
+                        L.do('setwin 0 3'); L.do('settimeout 0 4'); L.do('setbw 0 10000 2'); L.do('jit 1/8')
+                        L.do('publish 0 %s b:%s %d 0' % (s_tok('big'), '5a' * 30000, q))
+                        L.do('publish 0 %s b:41 1 0' % s_tok('small'))
+                        L.fire_all(2)
+                        L.do(setter)
+                        L.do('recv 0 %s' % hx(ack(0x40, 2)))
+                        L.fire_all(5)
+                        L.do('recv 0 %s' % hx(ack(0x40 if q == 1 else 0x50, 1)))
+                        L.fire_all(3)
+                    except Exception:
+                        pass
+                    out.append(('setter-midflight-%s-%d-%s' % (ver, q, setter.split()[0]), list(L.lines)))
         return out
     return generic('C08', ctx, 250, 6000, 70,
                    'corpus; seeded walks with frequent timer expiries over the four retransmittable kinds, both versions, initial timeouts {1,2,4,7,1024}, bandwidth/factor settings, '
@@ -605,6 +726,31 @@ def c17(ctx):
         # back, preserved by a persistent session) are created on two addresses with low identifiers, then the counter is placed just
         # before the wrap (what 65535 finished allocations would do) and new requests of every kind are issued on both addresses
         out += wrapold_walks(ctx, n, 13000)
+        # every container configuration around one held-back identifier at the wrap: window 1 or 2, a QoS 2 exchange whose PUBREC empties
+        # the publish window while a later message still waits in the queue (its identifier is taken although nothing of the address is in
+        # the publish window), the next connection of a persistent session, a second address -- then the counter wraps and requests of
+        # every kind are issued: none may be given an identifier still in use
+        for prof in ((3,) if ctx['tier'] == 'quick' else (3, 2)):
+            for win in (1, 2):
+                for variant in ('rec', 'rec-lost', 'plain', 'other-addr'):
+                    L = ['factory %d' % prof, 'build a0', 'sethandlers 0 7', 'connect 0 %s 0 311 0' % s_tok('c'), 'recv 0 20020000', 'setwin 0 %d' % win]
+                    L += ['publish 0 %s b:4%d 2 0' % (s_tok('q%d' % i), i) for i in range(win)]           # ids 1..win in flight
+                    L += ['publish 0 %s b:5%d %d 0' % (s_tok('h%d' % i), i, 1 + i % 2) for i in range(3)]  # ids win+1..win+3 held back
+                    if variant != 'plain':
+                        L += ['recv 0 %s' % hx(ack(0x50, i + 1)) for i in range(win)]                       # window empty, queue not
+                    user = 0
+                    if variant == 'rec-lost':
+                        L += ['lost 0 lostc', 'build a0', 'sethandlers 1 7', 'setwin 1 %d' % win, 'connect 1 %s 0 311 0' % s_tok('c')]
+                        user = 1
+                    if variant == 'other-addr':
+                        L += ['build a1', 'sethandlers 1 7', 'connect 1 %s 0 311 1' % s_tok('d'), 'recv 1 20020000', 'setwin 1 8']
+                        user = 1
+                    L += ['setid 65534']
+                    L += ['publish %d %s b:61 1 0' % (user, s_tok('n1')), 'publish %d %s b:62 2 0' % (user, s_tok('n2'))]
+                    if prof == 3:
+                        L += ['subscribe %d %s 1' % (user, s_tok('s')), 'unsubscribe %d %s' % (user, s_tok('u')), 'subscribe %d %s 0' % (user, s_tok('s2'))]
+                    L += ['publish %d %s b:63 1 0' % (user, s_tok('n3')), 'publish %d %s b:64 1 0' % (user, s_tok('n4'))]
+                    out.append(('heldback-%d-%d-%s' % (prof, win, variant), L))
         return out
     return generic('C17', ctx, 250, 6000, 60,
                    'corpus; seeded walks issuing requests of every kind; additionally walks started with the identifier counter placed at 65530..65535, and two-address walks in which requests of every kind are left unfinished under low identifiers before the counter is placed at 65531..65535 and new requests of every kind follow',
@@ -753,6 +899,10 @@ def strict_decode_writes(ctx, res, prop):
     outs = cc.run_lines(lines) if lines else []
     nbad = 0
     for (name, scen, o), r in zip(meta, outs):
+        h = o.split()[2]
+        b0 = int(h[:2], 16) if len(h) >= 2 else 0
+        if r != 'none' and b0 >> 4 == 3 and (b0 >> 1) & 3 == 0 and b0 & 8:
+            r = 'none'           # "The DUP flag MUST be set to 0 for all QoS 0 messages" [MQTT-3.3.1-2]
         if r == 'none':
             nbad += 1
             if nbad <= 5:
